@@ -74,6 +74,23 @@ class SimFalsyError(SimError):
         return (SimFalsyError, (self.label, self.cls, self.retry_after))
 
 
+class SimFrozenError(SimError):
+    """An operation failure whose type rejects attribute assignment (frozen-dataclass exceptions do);
+    the interpreter's own bookkeeping (__traceback__, __context__, __cause__) bypasses __setattr__."""
+
+    def __init__(self, label, cls, retry_after=None):
+        super().__init__(label, cls, retry_after)
+        object.__setattr__(self, "_frozen", True)
+
+    def __setattr__(self, name, value):
+        if getattr(self, "_frozen", False):
+            raise AttributeError(f"cannot assign to field {name!r}")
+        super().__setattr__(name, value)
+
+    def __reduce__(self):
+        return (SimFrozenError, (self.label, self.cls, self.retry_after))
+
+
 class Val:
     """A successful result (identity matters, so never interned)."""
 
@@ -267,6 +284,13 @@ class SpyBreaker:
         self._env.ev("BREAKER", m="record_cancel", ret=None, state=self._state.value)
 
 
+class FalsySpyBreaker(SpyBreaker):
+    """A breaker object that is falsy (e.g. a container-like breaker reporting `len` = failures in the window)."""
+
+    def __len__(self):
+        return 0
+
+
 # ---------------------------------------------------------------------------
 class CallState:
     """Per-call script position and counters."""
@@ -343,13 +367,14 @@ class Env:
         self.fault_counts[kind] = self.fault_counts.get(kind, 0) + 1
 
     # -- fault plan -----------------------------------------------------
-    def fault(self, site: str, idx: int):
-        """Return the exception to raise at the idx-th invocation of `site`, if any."""
+    def fault(self, site: str, idx: int, tags=()):
+        """Return the exception to raise at the idx-th invocation of `site`, if any
+        (`tags`: symbolic conditions that hold for this invocation, e.g. "aborted")."""
         cs = self.cs()
         if cs is None:
             return None
         for f in cs.faults:
-            if f.get("site") == site and (f.get("at") == "always" or f.get("at") == idx):
+            if f.get("site") == site and (f.get("at") == "always" or f.get("at") == idx or f.get("at") in tags):
                 self.fired(f.get("kind", "callback_raise"))
                 exc = make_fault_exc(f["exc"])
                 lab = f"F{site}{idx}c{cs.cid}"
@@ -457,14 +482,32 @@ class Env:
             return r
         if kind == "exc":
             prev = cs.last_exc_obj
-            if step.get("reuse") and prev is not None and prev.cls == step["cls"] and prev.retry_after == step.get("ra"):
+            shared = getattr(self, "last_exc_any", None)
+            if step.get("reuse_any") and shared is not None:
+                # the very same exception object surfaces again in another call / through another policy
+                # (memoised failure, Future.result(), module-level error singleton): its own class travels with it
+                e = shared
+            elif step.get("reuse") and prev is not None and prev.cls == step["cls"] and prev.retry_after == step.get("ra"):
                 e = prev          # the operation re-raises a cached exception object (e.g. Future.result() of a failed future)
             else:
-                etype = SimTimeoutError if step.get("timeout_type") else SimFalsyError if step.get("falsy") else SimError
+                etype = (SimTimeoutError if step.get("timeout_type") else SimFalsyError if step.get("falsy")
+                         else SimFrozenError if step.get("frozen") else SimError)
                 e = etype("E" + lab, step["cls"], step.get("ra"))
+                if step.get("status_cls"):
+                    # what redress.default_classifier (no-retry policies) makes of it differs from what the
+                    # retrying policy's own classifier says: two policies, two opinions about one error
+                    object.__setattr__(e, "status", STATUS_OF.get(step["status_cls"]))
             cs.last_exc_obj = e
+            self.last_exc_any = e
             cs.objects[e.label] = e
-            self.ev("OP_END", k=k, kind="exc", cls=step["cls"], obj=e.label, ra=step.get("ra"), etype=type(e).__name__)
+            dcls = next((k for k, v in STATUS_OF.items() if v == e.status), "UNKNOWN")
+            self.ev("OP_END", k=k, kind="exc", cls=e.cls, obj=e.label, ra=e.retry_after, etype=type(e).__name__, dcls=dcls)
+            if step.get("ctx_coe"):
+                # raised while handling a nested breaker's rejection: the rejection is only the implicit __context__
+                try:
+                    raise CircuitOpenError("open")
+                except CircuitOpenError:
+                    _raise_here(e)
             _raise_here(e)
         if kind == "abort":
             e = AbortRetryError("A" + lab)
@@ -592,6 +635,14 @@ class Env:
             # stateful-strategy protocol (adaptive()): the loop reports failures / successes back
             def record_failure(klass=None):
                 env.ev("STRAT_FB", which=which, what="failure", cls=getattr(klass, "name", None))
+                cs = env.cs()
+                if cs is not None and cs.s.get("fb_dur"):
+                    # a slow feedback hook (lock contention, I/O): time passes between the loop's two clock reads
+                    j = cs.count("fb")
+                    d = cs.s["fb_dur"][j % len(cs.s["fb_dur"])]
+                    if d:
+                        env.spend(d)
+                        env.fired("slow_feedback")
 
             def record_success():
                 env.ev("STRAT_FB", which=which, what="success")
@@ -765,7 +816,8 @@ class Env:
                    exc=None if ctx.exception is None else getattr(ctx.exception, "label", type(ctx.exception).__name__),
                    result=None if ctx.result is None else getattr(ctx.result, "label", type(ctx.result).__name__),
                    i=i)
-            f = env.fault("attempt_" + phase, i)
+            # "aborted": an observer written for finished attempts that trips over the context of an interrupted one
+            f = env.fault("attempt_" + phase, i, tags=("aborted",) if getattr(ctx.decision, "value", None) == "aborted" else ())
             if f is not None:
                 raise f
 
